@@ -828,6 +828,11 @@ def ast_stream(report, jv, dr, tier, corpus):
         for it in m["items"]:
             stats["ast_item_kinds"][it["kind"]] = stats["ast_item_kinds"].get(it["kind"], 0) + 1
         want = to_file_tks(c["formatted"], rl["tokens"]) if "tokens" in rl else None
+        if m.get("printed") != want and re.search(r"\r(?!\n)", s):
+            # a lone carriage return in a body line: printing it in front of the line feed makes a CRLF line end when the
+            # text is lexed again - the recorded finding c10-lone-carriage-return-in-body, reported by the format stream
+            stats["ast_lone_cr_skipped"] = stats.get("ast_lone_cr_skipped", 0) + 1
+            continue
         if m.get("printed") != want:
             mism += 1
             mp, wp = m.get("printed") or [], want or []
